@@ -37,6 +37,7 @@ WIDTHS = {
 # The closed rewrite table (DESIGN 2.3). (rule id, regex, replacement, justification)
 GLOBAL_REWRITES = [
     ('R5a', r'crate::Error::(\w+)\(\s*"[^"]*"\s*,?\s*\)', r'E::\1', 'error payload dropped, variant kept'),
+    ('R5e', r'crate::Error::(\w+)\(\s*crate::error::\w+\s*,?\s*\)', r'E::\1', 'error payload (message constant) dropped, variant kept'),
     ('R5b', r'crate::Error::(\w+)\b', r'E::\1', 'error variant'),
     ('R8a', r'\|_\|', r'|_e|', 'closure parameter must be a variable in Verus'),
     ('R8b', r'\.ok_or_else\(\s*\|\|\s*', r'.ok_or(', 'ok_or_else(|| e) == ok_or(e) for a pure error value'),
